@@ -11,6 +11,7 @@ EXPLANATION = ('Structural necessary conditions of C07 in on_remove_worker / Tas
                'whose start was announced, and the crash counter is carried through the journal replay and the restore adjust map.')
 NOT_DECIDED = ['exact equality of live and restored crash counts over all histories (D15: restore counts non-root multi-node worker loss)',
                'that a re-queued task is eventually re-run (liveness)']
+RELATED = {'C10': ['R10.9~^WorkerLost']}
 ASSUMPTIONS = ['LostWorkerReason classification is done by the callers of on_remove_worker (rpc.rs); R07.9 covers the stop-reason override']
 
 CRASH = 'tako::gateway::CrashLimit'
